@@ -172,6 +172,10 @@ cell!(CReqVec, SReqVec, Vec<String>, [long, required = true], extract: |m| m.get
 cell!(COptBool, SOptBool, Option<bool>, [long], extract: |m| m.get_one::<bool>("f").copied(), domain: vec![None, Some(true), Some(false)], print: |v| v.iter().map(|x| format!("--f={}", x)).collect());
 cell!(CShortOnly, SShortOnly, Option<String>, [short], extract: |m| m.get_one::<String>("f").cloned(), domain: vec![None, Some(s("v"))], print: |v| v.iter().flat_map(|x| vec![s("-f"), x.clone()]).collect());
 cell!(CReqPosVec, SReqPosVec, Vec<String>, [required = true], extract: |m| m.get_many::<String>("f").map(|v| v.cloned().collect()).unwrap_or_default(), domain: vec![vec![s("v")], vec![s("v"), s("7")]], print: |v| v.clone());
+// scalar shapes whose argument can hold several values: the field is the first value (get_one)
+cell!(CScalarAppend, SScalarAppend, Option<String>, [long, action = ArgAction::Append], extract: |m| m.get_one::<String>("f").cloned(), domain: vec![None, Some(s("v"))], print: |v| v.iter().map(|x| format!("--f={}", x)).collect());
+cell!(CScalarN, SScalarN, Option<String>, [long, num_args = 1..=2], extract: |m| m.get_one::<String>("f").cloned(), domain: vec![None, Some(s("v"))], print: |v| v.iter().map(|x| format!("--f={}", x)).collect());
+cell!(CReqScalarN, SReqScalarN, String, [long, num_args = 1..=2], extract: |m| m.get_one::<String>("f").cloned().unwrap(), domain: vec![s("7"), s("v")], print: |v| vec![format!("--f={}", v)]);
 cell!(CCountU8Def, SCountU8Def, u8, [short, action = ArgAction::Count, default_value_t = 0], extract: |m| m.get_count("f"), domain: vec![0, 3], print: |v| if *v == 0 { vec![] } else { vec![format!("-{}", "f".repeat(*v as usize))] });
 
 // ---------------------------------------------------------------------------------------------
@@ -478,7 +482,7 @@ fn corpus() -> Vec<Box<dyn Cell>> {
         Box::new(CVecStr), Box::new(CVecU8), Box::new(CVecPos), Box::new(CVecN), Box::new(CVecEnum),
         Box::new(COptVecStr), Box::new(COptVecN0),
         Box::new(CGlobal), Box::new(CDefMissing),
-        Box::new(CSetFalse), Box::new(CDefVals), Box::new(CReqVec), Box::new(COptBool), Box::new(CShortOnly), Box::new(CReqPosVec), Box::new(CCountU8Def),
+        Box::new(CSetFalse), Box::new(CDefVals), Box::new(CReqVec), Box::new(COptBool), Box::new(CShortOnly), Box::new(CReqPosVec), Box::new(CCountU8Def), Box::new(CScalarAppend), Box::new(CScalarN), Box::new(CReqScalarN),
         Box::new(CFlatten), Box::new(COptFlatten), Box::new(CSub), Box::new(COptSub), Box::new(CFlatSub),
     ]
 }
